@@ -160,34 +160,47 @@ bool cmb_condition_signal(struct cmb_condition *cvp)
     }
 
     /* Allocate space enough to reactivate everything in the heap */
-    uint64_t *tmp = cmi_malloc(hp->heap_count * sizeof(*tmp));
+    struct cmi_heap_tag *tmp = cmi_malloc(hp->heap_count * sizeof(*tmp));
 
-    /* First pass, recording the satisfied demand predicates */
+    /*
+     * First pass, recording the satisfied waiters in queue order. The heap
+     * array itself is only partially ordered, so each one is inserted at its
+     * place by the queue's own ordering function (priority, then waiting time).
+     */
     for (uint64_t ui = 1; ui <= hp->heap_count; ui++) {
         /* Decode the hashheap item */
-        struct cmi_heap_tag *htp = &(hp->heap[ui]);
-        void **item = htp->item;
+        const struct cmi_heap_tag *htp = &(hp->heap[ui]);
+        void *const *item = htp->item;
         struct cmb_process *pp = item[0];
         cmb_condition_demand_func *demand = item[1];
         const void *ctx = item[2];
 
         if ((*demand)(cvp, pp, ctx)) {
-            /* Satisfied, note it on the list, schedule wakeup event */
             cmb_logger_info(stdout, "Condition %s satisfied for process %s",
                             rbp->name, pp->name);
-            tmp[cnt++] = htp->key;
-            CMI_VERIF_EMIT("GuardGrant", 1u, &(cvp->guard), pp, 0, 0.0);
-            const double time = cmb_time();
-            const int64_t priority = cmb_process_priority(pp);
-            (void)cmb_event_schedule(wakeup_event_condition, pp,
-                                     (void *)CMB_PROCESS_SUCCESS,
-                                     time, priority);
+            uint64_t uj = cnt++;
+            while ((uj > 0u) && (*(hp->heap_compare))(htp, &(tmp[uj - 1u]))) {
+                tmp[uj] = tmp[uj - 1u];
+                uj--;
+            }
+            tmp[uj] = *htp;
         }
     }
 
-    /* Second pass, remove the satisfied waiters from the hashheap */
+    /* Second pass, schedule the wakeup events in that order */
     for (uint64_t ui = 0u; ui < cnt; ui++) {
-        cmi_hashheap_remove(hp, tmp[ui]);
+        struct cmb_process *pp = tmp[ui].item[0];
+        CMI_VERIF_EMIT("GuardGrant", 1u, &(cvp->guard), pp, 0, 0.0);
+        const double time = cmb_time();
+        const int64_t priority = cmb_process_priority(pp);
+        (void)cmb_event_schedule(wakeup_event_condition, pp,
+                                 (void *)CMB_PROCESS_SUCCESS,
+                                 time, priority);
+    }
+
+    /* Third pass, remove the satisfied waiters from the hashheap */
+    for (uint64_t ui = 0u; ui < cnt; ui++) {
+        cmi_hashheap_remove(hp, tmp[ui].key);
     }
 
     cmi_free(tmp);
